@@ -2,6 +2,7 @@ package props
 
 import (
 	"bytes"
+	"strings"
 	"testing"
 	"time"
 
@@ -200,4 +201,24 @@ func TestC07RegressUndecodableSigner(t *testing.T) {
 		caseFail(t, "D11", "bridge blocked: %v", err)
 	}
 	regressed(t, "C07", "D11-undecodable-signer")
+}
+
+// D12: the gas an oracle update consumes depended on what the process had executed before at the same
+// height (the currency-pair strategy of the vote aggregator keeps an in-memory id cache that a discarded
+// execution of the same update had filled): two nodes disagreed on the gas used by a committed transaction.
+func TestC18RegressOracleGasHistory(t *testing.T) {
+	mk := func(k string, a, b int, c int64, s string) c18Op { return c18Op{Kind: k, A: a, B: b, C: c, S: s} }
+	script := []c18Op{mk("oracle", 0, 11, 7, "hold"), mk("add", 3, 0, 11, ""), mk("block", 3, 5, 0, ""), mk("add", 1, 0, 1, ""), mk("oracle-late", 0, 1, 0, "")}
+	defer func(n bool) { c18Noise = n }(c18Noise)
+	c18Noise = false
+	plain, _, _ := runL2Script(script)
+	c18Noise = true
+	noisy, _, _ := runL2Script(script)
+	if plain != noisy {
+		caseFail(t, "D12", "C18 violated: the same L2 history executed by a process that had checked the waiting oracle update before (uncommitted) differs: %s", firstDiffLine(plain, noisy))
+	}
+	if !strings.Contains(plain, "oracle-late(0,1,0,) => ok") {
+		t.Fatalf("harness: the regression script no longer applies its oracle update:\n%s", truncStr(plain, 1500))
+	}
+	regressed(t, "C18", "D12-oracle-gas-depends-on-process-history")
 }
